@@ -126,6 +126,14 @@ def model_code(m, path, rules_text=None):
             arms.append('%d => Some(m.%s_cases(%s(x)).map(|c| match c { %s }).collect()),' % (i, t, T, vs))
     A('pub fn cases(m: &M, ty: usize, x: u32) -> Option<Vec<(usize, Vec<u32>)>> { match ty { %s _ => None } }' % ' '.join(arms))
     A('pub const CTORS: &[(usize, usize)] = &[%s];' % ', '.join('(%d, %d)' % (tlist.index(t), ri) for t in enums for _, ri, _ in enums[t]))
+    # new_<enum>(<Enum>Case::<Ctor>(args)) -- the public way to create an element of an enum type (C15)
+    narms = []
+    for t in enums:
+        T = m.types[t]
+        for c, ri, n in enums[t]:
+            r = rl[ri]
+            narms.append('%d => m.new_%s(%sCase::%s(%s)).0,' % (ri, t, T, c, ', '.join('%s(a[%d])' % (m.rels[r][i], i) for i in range(n))))
+    A('pub fn new_enum(m: &mut M, rel: usize, a: &[u32]) -> u32 { match rel { %s _ => unreachable!() } }' % ' '.join(narms))
     # ---- the flat rules of the program, parsed from the comments above the emitted rule functions (C01: closedness)
     A(rules_code(m, rl, tlist, funcs))
     A('pub fn close(m: &mut M) { m.close() }')
